@@ -1177,6 +1177,13 @@ func (m *Nitro) LoadFromDisk(dir string, concurr int, callb ItemCallback) (*Snap
 		}
 	}
 
+	if m.useMemoryMgmt {
+		// The store created by NewWithConfig is replaced by the assembled one:
+		// return its head and tail nodes to the allocator
+		old := m.store
+		old.FreeNode(old.HeadNode(), &old.Stats)
+		old.FreeNode(old.TailNode(), &old.Stats)
+	}
 	m.store = b.Assemble(segments...)
 
 	// Delta processing
